@@ -379,3 +379,25 @@ Example C10_rerender_7bit_refuted :
     read_tree (EmlRerender.rerender ex_mime_of ex10_rb2 st) = Some t2 /\
     map (option_map lc_content) (tree_content t2) = [Some (bs "a=3D3Db")].
 Proof. exact ex7_rerender_refuted. Qed.
+
+
+(* ---------- the address lists of the parsed Msg ---------- *)
+(* T1: in parseEMLHeaders To/Cc/Bcc are set (msg.To / msg.Cc / msg.Bcc) from the String() forms of the
+   ELEMENTS of the netmail.ParseAddressList result - recognised in the source on every run; the model's
+   parse_headers takes exactly that list from the oracle (alist) *)
+Theorem C10_addr_lists_from_parse_result : eml_addr_lists_from_parser = true.
+Proof. reflexivity. Qed.
+Print Assumptions C10_addr_lists_from_parse_result.
+
+(* display names with a comma, semicolon, colon, angle brackets, parentheses, dots, at-sign (everything
+   that makes net/mail quote the phrase) are inside the feature set, and C10_parse_render gives back the
+   lists as net/mail parsed them *)
+Example C10_quoted_display_names_in_feature_set :
+  in_feature_set exq = true /\ oracles_ok ex_pa exq_pl ex_pd ex10_date exq.
+Proof. exact exq_in_feature_set. Qed.
+
+Example C10_quoted_display_names_example :
+  exists st, eml_parse ex_pa exq_pl ex_pd (r_out (write_to ex10_date ex10_msgid ex10_rb exq unlimited)) = Ok st /\
+             pj_to (project_parsed st) = exq_to /\ pj_cc (project_parsed st) = exq_cc /\
+             project_parsed st = project_built ex10_date exq.
+Proof. exact exq_direct. Qed.
